@@ -70,10 +70,17 @@ structure Dyn (MF Tok : Type) where
 def Dyn.init {MF Tok} (L : DynLeaves MF Tok) : Dyn MF Tok :=
   { buf := [], idx := 0, processed := 0, tokens := [], carry := [], mf := L.mfInit }
 
+/-- pack `m` bytes worth of bits, 8 at a time, least significant bit first -/
+def packBytes : Nat → Bits → List UInt8
+  | 0, _ => []
+  | m + 1, bs => UInt8.ofNat (bitsToNat (bs.take 8)) :: packBytes m (bs.drop 8)
+
+/-- zero bits needed to reach a byte boundary after `n` bits -/
+def padLen (n : Nat) : Nat := (8 - n % 8) % 8
+
 /-- pad a bit string to a byte boundary and pack it (BitBuf.flushLastByte) -/
 def padToBytes (bs : Bits) : List UInt8 :=
-  let padded := bs ++ List.replicate ((8 - bs.length % 8) % 8) false
-  (List.range (padded.length / 8)).map fun i => UInt8.ofNat (bitsToNat ((padded.drop (8 * i)).take 8))
+  packBytes ((bs.length + padLen bs.length) / 8) (bs ++ List.replicate (padLen bs.length) false)
 
 /-- BitBuf.writeEmptyBlock / writeFinalEmptyBlock: 3 header bits, padding, 00 00 FF FF -/
 def emptyStored (carry : Bits) (final : Bool) : List UInt8 :=
